@@ -23,7 +23,6 @@ import (
 
 const modPath = "github.com/regclient/regclient"
 
-var sharedPkgs = []string{"vsync", "qsched", "explore", "ev", "modelreg", "audit", "graphs", "linz"}
 
 type overlayOpts struct {
 	repo      string // /repo
@@ -96,7 +95,12 @@ func genOverlay(o overlayOpts) (string, string, error) {
 		}
 	}
 	// shared virtual packages
-	for _, pkg := range sharedPkgs {
+	srcEnts, _ := os.ReadDir(filepath.Join(o.verif, "src"))
+	for _, se := range srcEnts {
+		pkg := se.Name()
+		if !se.IsDir() || pkg == "harness" || pkg == "crashmc" || pkg == "drivers" {
+			continue
+		}
 		dir := filepath.Join(o.verif, "src", pkg)
 		ents, err := os.ReadDir(dir)
 		if err != nil {
